@@ -15,3 +15,10 @@ package p2p
 //@ func ParseNodeString
 //@   props C15
 //@   nopanic
+
+// C15 "allocates memory out of proportion to the bytes received": the handshake packet of an unauthenticated connection is
+// allocated from a 4-byte length field before any of its bytes arrive; the bound on that length is the bound on the allocation.
+//@ constvar PackageLength, PackageMaxLen
+//@ func readHandshakeBuf
+//@   props C15
+//@   opt alloc-bound=$size <= 65536
